@@ -264,7 +264,7 @@ func (m *c21Model) compare(b *model.AllocationBlock) string {
 			if a.ReleasedAt != nil {
 				return fmt.Sprintf("ordinal %d: model allocated to %s, block has it released (cooling)", o, x.handle)
 			}
-			if a.HandleID == nil || *a.HandleID != x.handle {
+			if (a.HandleID == nil) != (x.handle == "") || (a.HandleID != nil && *a.HandleID != x.handle) {
 				return fmt.Sprintf("ordinal %d: model allocated to %s, block attributes it to %v", o, x.handle, a.HandleID)
 			}
 		case c21Cooling:
@@ -336,16 +336,27 @@ type c21RelOpt struct {
 
 var c21Handles = []string{"hA", "hB", "hC"}
 
+// c21AssignHandles: a quarter of the assignments carry no handle ("" = nil HandleID; optional in
+// the API, used for old tunnel / host addresses and by tools).
+var c21AssignHandles = []string{"hA", "hB", "hC", ""}
+
+func c21HandlePtr(h string) *string {
+	if h == "" {
+		return nil
+	}
+	return &h
+}
+
 func c21DrawReq(t *rapid.T, m *c21Model) c21Req {
 	k := rapid.IntRange(0, 11).Draw(t, "op")
 	switch {
 	case k <= 3:
-		return c21Req{kind: "assign", n: rapid.IntRange(1, 2).Draw(t, "n"), handle: rapid.SampledFrom(c21Handles).Draw(t, "handle")}
+		return c21Req{kind: "assign", n: rapid.IntRange(1, 2).Draw(t, "n"), handle: rapid.SampledFrom(c21AssignHandles).Draw(t, "handle")}
 	case k == 4:
-		return c21Req{kind: "assignIP", ord: rapid.IntRange(0, c21N-1).Draw(t, "ord"), handle: rapid.SampledFrom(c21Handles).Draw(t, "handle")}
+		return c21Req{kind: "assignIP", ord: rapid.IntRange(0, c21N-1).Draw(t, "ord"), handle: rapid.SampledFrom(c21AssignHandles).Draw(t, "handle")}
 	case k <= 8:
 		r := c21Req{kind: "release"}
-		n := rapid.IntRange(1, 2).Draw(t, "nrel")
+		n := rapid.IntRange(1, 3).Draw(t, "nrel")
 		used := map[int]bool{}
 		for i := 0; i < n; i++ {
 			var o c21RelOpt
@@ -581,6 +592,24 @@ func c21RunHistory(t *rapid.T, rec *ev.Recorder, ex c21Exec, m *c21Model, nOps i
 				if o.class == "stale-alloc" {
 					aba = true
 				}
+				if x.state == c21Alloc && x.handle == "" && o.handle != "" {
+					classes["rel-names-handle-for-handleless-address"] = true
+				}
+			}
+			if len(r.rel) > 1 {
+				withH, withoutH := false, false
+				for _, o := range r.rel {
+					if x := m.ords[o.ord]; x.state == c21Alloc {
+						if x.handle == "" {
+							withoutH = true
+						} else {
+							withH = true
+						}
+					}
+				}
+				if withH && withoutH {
+					classes["multi-release-mixing-handled-and-handleless"] = true
+				}
 			}
 			// Only the live allocations are compared around a refused release: whether a
 			// cooling address is freed by the garbage collection that every load performs
@@ -712,7 +741,7 @@ func (e *c21BlockExec) raw() *model.AllocationBlock   { return e.b.AllocationBlo
 
 func (e *c21BlockExec) assign(n int, handle string) ([]int, error) {
 	nb := e.load()
-	ips, err := nb.autoAssign(n, &handle, e.aff, nil, false, nilAddrFilter{})
+	ips, err := nb.autoAssign(n, c21HandlePtr(handle), e.aff, nil, false, nilAddrFilter{})
 	if err != nil || len(ips) == 0 {
 		return nil, err
 	}
@@ -727,7 +756,7 @@ func (e *c21BlockExec) assign(n int, handle string) ([]int, error) {
 
 func (e *c21BlockExec) assignIP(ord int, handle string) error {
 	nb := e.load()
-	if err := nb.assign(false, nb.OrdinalToIP(ord), &handle, nil, e.aff); err != nil {
+	if err := nb.assign(false, nb.OrdinalToIP(ord), c21HandlePtr(handle), nil, e.aff); err != nil {
 		return err
 	}
 	e.persist(nb)
@@ -854,7 +883,7 @@ func (e *c21ClientExec) ord(ip cnet.IP) int {
 func (e *c21ClientExec) ip(ord int) cnet.IP { return e.cidr.NthIP(ord) }
 
 func (e *c21ClientExec) assign(n int, handle string) ([]int, error) {
-	v4, _, err := e.ic.AutoAssign(context.Background(), AutoAssignArgs{Num4: n, HandleID: &handle, Hostname: "n1", IntendedUse: v3.IPPoolAllowedUseWorkload})
+	v4, _, err := e.ic.AutoAssign(context.Background(), AutoAssignArgs{Num4: n, HandleID: c21HandlePtr(handle), Hostname: "n1", IntendedUse: v3.IPPoolAllowedUseWorkload})
 	var ords []int
 	if v4 != nil {
 		for _, ipn := range v4.IPs {
@@ -865,7 +894,7 @@ func (e *c21ClientExec) assign(n int, handle string) ([]int, error) {
 }
 
 func (e *c21ClientExec) assignIP(ord int, handle string) error {
-	return e.ic.AssignIP(context.Background(), AssignIPArgs{IP: e.ip(ord), HandleID: &handle, Hostname: "n1"})
+	return e.ic.AssignIP(context.Background(), AssignIPArgs{IP: e.ip(ord), HandleID: c21HandlePtr(handle), Hostname: "n1"})
 }
 
 func (e *c21ClientExec) release(opts []c21RelOpt) ([]int, error) {
